@@ -8,6 +8,7 @@
 
 #include <cmath>
 #include <cstdlib>
+#include <dlfcn.h>
 #include <map>
 #include <memory>
 
@@ -62,6 +63,7 @@ static J run(const J& c)
             auto S = [&](std::size_t i) -> Slot& { return slot.at(static_cast<std::size_t>(a[i].num()) - 1); };
             J r = J::obj();
             r.set("out", "ok").set("val", "");
+            std::string asked;
             try
             {
                 if (op == "SetEnv")
@@ -79,11 +81,16 @@ static J run(const J& c)
                     r.set("val", nitro::env::get(a[0].str(), nitro::env::no_default));
                 else if (op == "Open")
                 {
+                    asked = libs.at(a[1].str());
+                    asked = asked.substr(asked.rfind('/') + 1);
                     S(0).d = std::make_unique<nitro::dl::dl>(libs.at(a[1].str()));
                     handle_lib[S(0).d->get().get()] = a[1].str();
                 }
                 else if (op == "Load")
-                    S(0).s = std::make_unique<Sym>(S(1).d->load<double(double)>(a[2].b ? "nitro_cos" : "nitro_not_defined"));
+                {
+                    asked = "verif_" + a[2].str();
+                    S(0).s = std::make_unique<Sym>(S(1).d->load<double(double)>(asked));
+                }
                 else if (op == "Copy")
                 {
                     if (S(1).d)
@@ -109,9 +116,11 @@ static J run(const J& c)
                 }
                 else if (op == "Call")
                 {
-                    double x = 0.5 + static_cast<double>(k);
-                    double y = (*S(0).s)(x);
-                    r.set("val", y == std::cos(x) ? "cos" : "wrong");
+                    // the test libraries answer x + <library number> (verif_common) or x + 10 + <library number> (own symbol)
+                    double x = 1000.0 + static_cast<double>(k);
+                    long d = std::lround((*S(0).s)(x) - x);
+                    std::string lib = "L" + std::to_string(d % 10);
+                    r.set("val", d > 10 ? lib + ":own_" + lib : lib + ":common");
                 }
                 else if (op == "Destroy")
                 {
@@ -122,7 +131,20 @@ static J run(const J& c)
             catch (const nitro::dl::exception& e)
             {
                 r.set("out", "dl_exception");
-                r.set("diag", J(!e.dlerror().empty()));
+                // the exception carries the loader's diagnostic of this failure: read it now, then through a copy and
+                // again from the original after the loader has reported a different failure and has been asked twice
+                std::string d1 = e.dlerror();
+                nitro::dl::exception copy(e);
+                g_counting = false;
+                (void)__real_dlopen("/nonexistent/verif_some_other_failure.so", RTLD_NOW);
+                (void)::dlerror();
+                (void)::dlerror();
+                g_counting = true;
+                std::string d2 = copy.dlerror(), d3 = e.dlerror();
+                bool ok = !d1.empty() && d1 == d2 && d1 == d3 && d1.find(asked) != std::string::npos;
+                r.set("diag", J(ok));
+                r.set("diag_text", J::bytes(d1));
+                r.set("diag_later", J::bytes(d3));
                 r.set("what", e.what());
             }
             catch (const nitro::except::exception& e)
